@@ -63,6 +63,13 @@ func c18Cells() []string {
 			out = append(out, s+strings.Repeat("b", k))
 		}
 	}
+	// cells of characters that upper-casing leaves alone, ending in one that it changes (and widens or
+	// narrows): the conversion starts writing at the very end of a buffer of exactly the cell's size
+	for k := 4; k <= 18; k++ {
+		for _, tail := range []string{"\u0250", "\u0131", "a", "\u017f"} {
+			out = append(out, strings.Repeat("A", k)+tail, strings.Repeat("7", k)+tail)
+		}
+	}
 	c18cells = out
 	return out
 }
@@ -118,8 +125,9 @@ func c18Env() *c18Frames {
 			ids[i] = i
 		}
 		e.str[order] = qframe.New(map[string]interface{}{"s": ptrs, "id": ids})
-		for start := 0; start < len(cells); start += 254 {
-			end := start + 254
+		// chunks of 255 distinct values: the largest enum there is, every enum number 0..254 in use
+		for start := 0; start < len(cells); start += 255 {
+			end := start + 255
 			if end > len(cells) {
 				end = len(cells)
 			}
@@ -403,8 +411,9 @@ func c18Run(ctx *core.Ctx) {
 			}
 		}
 	}
-	// buffer reuse: a 14-cell core in all sequences of 3, for the case-insensitive matchers and for ToUpper itself
-	coreCells := []string{"a", "\u0131", "\u0250", "a\u0131b", "\u0250\u0250\u0250\u0250", "aaaaaaaaa", "aaaaaaaaa\u0131", "aaaaaaaaaaa\u0250", "\u00dfa", "a\u0080", "\u017f\u017f\u017f\u017f\u017f\u017f", "", "A", "bbbbbbbbbbbbbbbbbbbb\u0250"}
+	// buffer reuse: a 17-cell core in all sequences of 3, for the case-insensitive matchers and for ToUpper itself
+	coreCells := []string{"a", "\u0131", "\u0250", "a\u0131b", "\u0250\u0250\u0250\u0250", "aaaaaaaaa", "aaaaaaaaa\u0131", "aaaaaaaaaaa\u0250", "\u00dfa", "a\u0080", "\u017f\u017f\u017f\u017f\u017f\u017f", "", "A", "bbbbbbbbbbbbbbbbbbbb\u0250",
+		"12345678\u0250", "AAAAAAAAAAAAAA\u0250", "abcdefghijkl"}
 	corePats := []string{"a%", "%\u0131", "%A%", "aib", "%\u0250", "s%", "%\u0080"}
 	forEachSeq(3, len(coreCells), func(pick []int) {
 		seq := []string{coreCells[pick[0]], coreCells[pick[1]], coreCells[pick[2]]}
@@ -434,8 +443,8 @@ func init() {
 		ID:    "C18",
 		Setup: func() { c18Env() },
 		Level: "model_checking",
-		Rule: "case = (pattern, comparator, column kind, cell order). Cells: ALL strings of length <= 3 over a 13-code-point alphabet (a, A, b, é, É, ß, dotless i U+0131 (upper one byte shorter), long s U+017F, U+0250 (upper one byte longer), C1 control U+0080, Kelvin sign U+212A, '.', '(') plus a^k+c and c+b^k for k = 4..14 (lengths around the matcher's 10-byte buffer), and one null; " +
-			"patterns: ALL strings of length <= 3 over the alphabet plus '%' (incl. empty, %, %%, regex metacharacters, invalid regex) plus long patterns; comparators like and ilike; as string column (cells in ascending, descending and interleaved length order, because the case-insensitive matcher reuses one buffer across cells) and as enum column in chunks of 254 values, each followed in the same process by a sibling enum column with the same cardinality, first and last value but the middle values rotated, and each also on four frames derived from the column's frame (tail slice, middle slice, sorted head, filtered: 8-20 rows of a column with 254 values); valid and invalid patterns on degenerate columns (no rows, all null, rows already selected by an earlier Or sub-clause, filtered down to nulls); a 14-cell core in all sequences of 3 through ilike and through the zero-alloc ToUpper directly with 4 buffer sizes. " +
+		Rule: "case = (pattern, comparator, column kind, cell order). Cells: ALL strings of length <= 3 over a 13-code-point alphabet (a, A, b, é, É, ß, dotless i U+0131 (upper one byte shorter), long s U+017F, U+0250 (upper one byte longer), C1 control U+0080, Kelvin sign U+212A, '.', '(') plus a^k+c and c+b^k for k = 4..14 (lengths around the matcher's 10-byte buffer), A^k+t and 7^k+t for k = 4..18 and four tails t that change under upper-casing, and one null; " +
+			"patterns: ALL strings of length <= 3 over the alphabet plus '%' (incl. empty, %, %%, regex metacharacters, invalid regex) plus long patterns; comparators like and ilike; as string column (cells in ascending, descending and interleaved length order, because the case-insensitive matcher reuses one buffer across cells) and as enum column in chunks of 255 values (the maximal cardinality), each followed in the same process by a sibling enum column with the same cardinality, first and last value but the middle values rotated, and each also on four frames derived from the column's frame (tail slice, middle slice, sorted head, filtered: 8-20 rows of a column with 255 values); valid and invalid patterns on degenerate columns (no rows, all null, rows already selected by an earlier Or sub-clause, filtered down to nulls); a 17-cell core in all sequences of 3 through ilike and through the zero-alloc ToUpper directly with 4 buffer sizes. " +
 			"Oracle: the statement's rules (literal match after trimming one leading/trailing %, strings.ToUpper for ilike, Go regexp anchored per missing % with (?i) for ilike when the pattern has metacharacters, compile error => Err, nulls never match). Every Filter call evaluates ~2700 cells; all cases non-trivial, distinct by content.",
 		Assumptions: []string{
 			"strings.ToUpper and Go's regexp are the reference for Unicode upper-casing and regular expressions",
